@@ -1,0 +1,11 @@
+//go:build verif
+// +build verif
+
+package bfe_server
+
+import (
+	"github.com/bfenetworks/bfe/bfe_http"
+)
+
+// VerifHopByHopHeaderRemove exposes hopByHopHeaderRemove to the out-of-tree verification harness.
+func VerifHopByHopHeaderRemove(outreq, req *bfe_http.Request) { hopByHopHeaderRemove(outreq, req) }
